@@ -169,7 +169,9 @@ class Elf(BinFormat):
                     continue
                 if s.sh_addr <= addr < s.sh_addr + s.sh_size:
                     return s, addr - s.sh_addr, s.sh_addr
-        elif self.Phdr:
+        # (an address outside every PROGBITS section can still be mapped
+        # by a segment)
+        if self.Phdr:
             for s in reversed(self.Phdr):
                 if s.p_type != PT_LOAD:
                     continue
@@ -202,7 +204,10 @@ class Elf(BinFormat):
         "converts given target virtual address back to offset in file"
         s, offset, base = self.getinfo(target)
         if s != None:
-            result = s.p_offset + offset
+            if isinstance(s, Shdr):
+                result = s.sh_offset + offset
+            else:
+                result = s.p_offset + offset
         else:
             result = None
         return result
